@@ -9,6 +9,8 @@ verus! {
 
 //@include ../common/ptr.rs
 //@include ../common/stdnum.rs
+//@include ../common/stdopt.rs
+//@include ../common/address.rs
 //@include ../common/bitmap_traits.rs
 
 pub type MmapInfo = PhantomData<()>;
@@ -701,6 +703,174 @@ impl<'a, B: BitmapSlice> VolatileMemory for VolatileSlice<'a, B> {
 //@fn src/volatile_memory.rs :: impl<B: BitmapSlice> VolatileMemory for VolatileSlice<'_, B> :: len :: tags=C01
 //@endfn
 //@fn src/volatile_memory.rs :: impl<B: BitmapSlice> VolatileMemory for VolatileSlice<'_, B> :: get_slice :: tags=C01
+//@endfn
+}
+
+// ------------------------------------------------------------------ mmap/unix.rs: MmapRegion as VolatileMemory
+pub struct FileOffset { pub start: u64 }
+//@item src/mmap/unix.rs :: - :: pub struct MmapRegion<B = \(\)> :: pubfields
+//@enditem
+
+impl<B: Bitmap> MmapRegion<B> {
+    /// what a successful mmap(size) gives the region (assumed, unsafe root): `size` mapped bytes at addr
+    pub open spec fn wf(&self) -> bool {
+        self.addr.wf() && self.addr.a + self.size <= self.addr.hi@ && self.addr.live@
+    }
+//@fn src/mmap/unix.rs :: impl<B: Bitmap> MmapRegion<B> :: as_ptr :: tags=C01
+//@spec
+    ensures r == self.addr,
+//@end
+//@endfn
+//@fn src/mmap/unix.rs :: impl<B: Bitmap> MmapRegion<B> :: size :: tags=C01
+//@spec
+    ensures r == self.size,
+//@end
+//@endfn
+//@fn src/mmap/unix.rs :: impl<B: Bitmap> MmapRegion<B> :: bitmap :: tags=C05
+//@spec
+    ensures r == &self.bitmap,
+//@end
+//@endfn
+}
+
+impl<B: Bitmap> VolatileMemory for MmapRegion<B> {
+    type B = B;
+    open spec fn vm_ptr(&self) -> Ptr { self.addr }
+    open spec fn vm_len(&self) -> int { self.size as int }
+    open spec fn vm_wf(&self) -> bool { self.wf() }
+    open spec fn vm_mmap_none(&self) -> bool { true }
+    open spec fn vm_sub<'b>(&self, s: &VolatileSlice<'b, B::S>, off: int, count: int) -> bool {
+        s.wf()
+        && s.addr.lo == self.addr.lo && s.addr.hi == self.addr.hi && s.addr.live == self.addr.live
+        && 0 <= off && 0 <= count && off + count <= self.size
+        && s.addr.a == self.addr.a + off && s.size == count
+        // the slice's bitmap addresses the REGION's own offsets: base = region bitmap base + off
+        && shifted(&s.bitmap, &self.bitmap, off)
+    }
+//@fn src/mmap/unix.rs :: impl<B: Bitmap> VolatileMemory for MmapRegion<B> :: len :: tags=C01
+//@endfn
+//@fn src/mmap/unix.rs :: impl<B: Bitmap> VolatileMemory for MmapRegion<B> :: get_slice :: tags=C01,C05,C07
+//@sub volatile_memory::Result< => Result<
+//@canary slice_at0 :: self\.bitmap\.slice_at\(offset\) => self.bitmap.slice_at(0)
+//@canary no_add :: self\.addr\.add\(offset\) => self.addr.add(0)
+//@endfn
+}
+
+// ------------------------------------------------------------------ mmap/mod.rs: GuestRegionMmap (region level)
+#[derive(Debug)]
+pub enum GmError {
+    InvalidGuestAddress(GuestAddress),
+    IOError(IoError),
+    PartialBuffer { expected: usize, completed: usize },
+    InvalidBackendAddress,
+    HostAddressNotAvailable,
+    CallbackOutOfRange,
+    GuestAddressOverflow,
+}
+pub type GmResult<T> = core::result::Result<T, GmError>;
+/// how a slice-level error must surface at region / guest level (from the property statements:
+/// partial transfers keep their counts, I/O errors are passed on, anything else is a backend-address error)
+pub open spec fn gm_from(e: Error) -> GmError {
+    match e {
+        Error::PartialBuffer { expected, completed } => GmError::PartialBuffer { expected, completed },
+        Error::IOError(x) => GmError::IOError(x),
+        _ => GmError::InvalidBackendAddress,
+    }
+}
+
+//@fn src/guest_memory.rs :: impl From<volatile_memory::Error> for Error :: from :: tags=C03 :: id=guest_memory::error_from
+//@sub volatile_memory::Error => @@VM@@
+//@sub \bError:: => GmError::
+//@sub @@VM@@ => Error
+//@sub fn from\(e: Error\) => pub fn gm_error_from(e: Error)
+//@sub -> Self => -> GmError
+//@spec
+    ensures
+        r == gm_from(e), // [C03,C14]
+//@end
+//@endfn
+
+//@item src/mmap/mod.rs :: - :: pub struct GuestRegionMmap<B = \(\)> :: pubfields
+//@enditem
+
+impl<B: Bitmap> GuestRegionMmap<B> {
+    pub open spec fn wf(&self) -> bool { self.mapping.wf() }
+    pub open spec fn s_len(&self) -> int { self.mapping.size as int }
+
+//@fn src/mmap/mod.rs :: impl<B: Bitmap> GuestMemoryRegion for GuestRegionMmap<B> :: len :: tags=C02
+//@spec
+    ensures r == self.mapping.size,
+//@end
+//@endfn
+//@fn src/mmap/mod.rs :: impl<B: Bitmap> GuestMemoryRegion for GuestRegionMmap<B> :: start_addr :: tags=C02
+//@spec
+    ensures r == self.guest_base,
+//@end
+//@endfn
+
+//@fn src/mmap/mod.rs :: impl<B: Bitmap> GuestMemoryRegion for GuestRegionMmap<B> :: get_slice :: tags=C01,C02,C05,C07
+//@sub guest_memory::Result< => GmResult<
+//@sub \)\?; => ).map_err(|e: Error| -> (q: GmError) ensures q == gm_from(e) { gm_error_from(e) })?;
+//@spec
+    requires self.wf(),
+    ensures
+        // a single contiguous slice is granted exactly for the ranges contained in the region
+        (r is Ok) == (offset.0 + count <= self.s_len()), // [C02,C01]
+        r matches Ok(sl) ==> self.mapping.vm_sub(&sl, offset.0 as int, count as int) && sl.size == count, // [C01,C02,C05]
+//@end
+//@endfn
+
+//@fn src/guest_memory.rs :: pub trait GuestMemoryRegion :: as_volatile_slice :: tags=C03,C07 :: id=guest_memory::GuestMemoryRegion::as_volatile_slice
+//@sub Result<VolatileSlice<<Self::B as Bitmap>::S>> => GmResult<VolatileSlice<<B as Bitmap>::S>>
+//@spec
+    requires self.wf(),
+    ensures r matches Ok(sl) && self.mapping.vm_sub(&sl, 0, self.s_len()) && sl.size == self.s_len(), // [C03,C01]
+//@end
+//@endfn
+
+//@fn src/mmap/mod.rs :: impl<B: Bitmap> Bytes<MemoryRegionAddress> for GuestRegionMmap<B> :: write :: tags=C03,C04,C07,C18 :: id=mod::GuestRegionMmap::Bytes::write
+//@sub guest_memory::Result< => GmResult<
+//@sub \.map_err\(Into::into\) => .map_err(|e: Error| -> (q: GmError) ensures q == gm_from(e) { gm_error_from(e) })
+//@spec
+    requires self.wf(),
+    ensures
+        buf@.len() == 0 ==> r == Ok::<usize, GmError>(0), // [C18]
+        buf@.len() > 0 && addr.0 >= self.s_len() ==> r is Err, // [C03,C04]
+        buf@.len() > 0 && addr.0 < self.s_len() ==> r == Ok::<usize, GmError>(if buf@.len() <= self.s_len() - addr.0 { buf@.len() as usize } else { (self.s_len() - addr.0) as usize }), // [C03,C04]
+//@end
+//@endfn
+//@fn src/mmap/mod.rs :: impl<B: Bitmap> Bytes<MemoryRegionAddress> for GuestRegionMmap<B> :: read :: tags=C03,C04,C07,C18 :: id=mod::GuestRegionMmap::Bytes::read
+//@sub guest_memory::Result< => GmResult<
+//@sub \.map_err\(Into::into\) => .map_err(|e: Error| -> (q: GmError) ensures q == gm_from(e) { gm_error_from(e) })
+//@spec
+    requires self.wf(),
+    ensures
+        old(buf)@.len() == 0 ==> r == Ok::<usize, GmError>(0), // [C18]
+        old(buf)@.len() > 0 && addr.0 >= self.s_len() ==> r is Err, // [C03,C04]
+        old(buf)@.len() > 0 && addr.0 < self.s_len() ==> r == Ok::<usize, GmError>(if old(buf)@.len() <= self.s_len() - addr.0 { old(buf)@.len() as usize } else { (self.s_len() - addr.0) as usize }), // [C03,C04]
+//@end
+//@endfn
+//@fn src/mmap/mod.rs :: impl<B: Bitmap> Bytes<MemoryRegionAddress> for GuestRegionMmap<B> :: write_slice :: tags=C03,C04,C07,C18 :: id=mod::GuestRegionMmap::Bytes::write_slice
+//@sub guest_memory::Result< => GmResult<
+//@sub \.map_err\(Into::into\) => .map_err(|e: Error| -> (q: GmError) ensures q == gm_from(e) { gm_error_from(e) })
+//@spec
+    requires self.wf(),
+    ensures
+        buf@.len() == 0 ==> r is Ok, // [C18]
+        (r is Ok) == (buf@.len() == 0 || addr.0 + buf@.len() <= self.s_len()), // [C03,C04]
+        buf@.len() > 0 && addr.0 < self.s_len() && addr.0 + buf@.len() > self.s_len() ==> r == Err::<(), GmError>(GmError::PartialBuffer { expected: buf@.len() as usize, completed: (self.s_len() - addr.0) as usize }), // [C03,C04]
+//@end
+//@endfn
+//@fn src/mmap/mod.rs :: impl<B: Bitmap> Bytes<MemoryRegionAddress> for GuestRegionMmap<B> :: read_slice :: tags=C03,C04,C07,C18 :: id=mod::GuestRegionMmap::Bytes::read_slice
+//@sub guest_memory::Result< => GmResult<
+//@sub \.map_err\(Into::into\) => .map_err(|e: Error| -> (q: GmError) ensures q == gm_from(e) { gm_error_from(e) })
+//@spec
+    requires self.wf(),
+    ensures
+        old(buf)@.len() == 0 ==> r is Ok, // [C18]
+        (r is Ok) == (old(buf)@.len() == 0 || addr.0 + old(buf)@.len() <= self.s_len()), // [C03,C04]
+        old(buf)@.len() > 0 && addr.0 < self.s_len() && addr.0 + old(buf)@.len() > self.s_len() ==> r == Err::<(), GmError>(GmError::PartialBuffer { expected: old(buf)@.len() as usize, completed: (self.s_len() - addr.0) as usize }), // [C03,C04]
+//@end
 //@endfn
 }
 
